@@ -60,6 +60,8 @@ EXC_PARENT = {
 
 def exc_isinstance(tname, cls):
     """True / False / None (=unknown: `Any` against a specific class)."""
+    if tname == cls:
+        return True
     if tname == "Any":
         if cls in ("Exception", "BaseException"):
             return True
@@ -307,6 +309,8 @@ class Run:
                 return Val(ty, ty.some(inner.t))
             raise EngineError(f"cannot coerce tuple to {ty}")
         if isinstance(v, Conc):
+            if isinstance(v.obj, tuple) and v.obj[0] == "emptydict" and isinstance(ty, TDict):
+                return Val(ty, ty.empty())
             if isinstance(ty, TObj) or ty is None:
                 return v
             raise EngineError(f"cannot coerce {v} to {ty}")
@@ -399,7 +403,7 @@ class Run:
                 cont = self.ev(t.value, fr)
                 key = self.ev(t.slice, fr)
                 new = ops.delitem(self, cont, key, t)
-                self.assign(t.value, new, fr)
+                self.assign(t.value, new, fr, writeback=True)
             elif isinstance(t, ast.Name):
                 o = fr.owner(t.id)
                 if o is None:
@@ -468,9 +472,13 @@ class Run:
         new = ops.binop(self, st.op, cur, rhs, st)
         self.assign(st.target, new, fr)
 
-    def assign(self, target, v, fr):
+    def assign(self, target, v, fr, writeback=False):
+        """writeback=True: `v` is the new value of a container that was mutated in place through `target`."""
         if isinstance(target, ast.Name):
             name = target.id
+            if writeback and fr.lookup(name) is None and name in self.globals:
+                self.globals[name] = self.coerce(v, self.globals[name].ty)
+                return
             if name in fr.globals_decl or (name not in fr.vars and fr.lookup(name) is None and name in self.globals and fr.parent is None and name in fr.globals_decl):
                 self.globals[name] = self.coerce(v, self.globals[name].ty) if name in self.globals else v
                 return
@@ -490,6 +498,13 @@ class Run:
         elif isinstance(target, ast.Attribute):
             obj = self.ev(target.value, fr)
             self.set_attr(obj, target.attr, v, target)
+        elif isinstance(target, ast.Subscript) and writeback:
+            # nested write-back: d[k] was mutated in place
+            cont = self.ev(target.value, fr)
+            key = self.ev(target.slice, fr)
+            new = ops.setitem(self, cont, key, v, target)
+            if new is not None:
+                self.assign(target.value, new, fr, writeback=True)
         elif isinstance(target, ast.Subscript):
             cont = self.ev(target.value, fr)
             if isinstance(target.slice, ast.Slice):
@@ -497,7 +512,7 @@ class Run:
             key = self.ev(target.slice, fr)
             new = ops.setitem(self, cont, key, v, target)
             if new is not None:
-                self.assign(target.value, new, fr)
+                self.assign(target.value, new, fr, writeback=True)
         elif isinstance(target, ast.Starred):
             raise EngineError("starred assignment unsupported")
         else:
@@ -764,7 +779,13 @@ class Run:
             return self.globals[name]
         if self.spec and name in self.ghost:
             return self.ghost[name]
-        return self.x.resolve_global(self, fr.finfo.module, name, node)
+        r = self.x.resolve_global(self, fr.finfo.module, name, node)
+        if isinstance(r, Conc) and isinstance(r.obj, tuple) and r.obj[0] == "lazyconst":
+            try:
+                return self.x.eval_const(self, load_module(r.obj[1]), r.obj[2])
+            except EngineError:
+                return r
+        return r
 
     def ex_Tuple(self, node, fr):
         items = []
@@ -785,7 +806,17 @@ class Run:
         return ops.seq_from_items(self, items, None)
 
     def ex_Dict(self, node, fr):
+        if not node.keys:
+            return Conc(("emptydict",))
         raise EngineError(f"dict display without declared type (line {node.lineno})")
+
+    def ex_Yield(self, node, fr):
+        """`yield` of a @contextmanager generator: the with-body runs here.  The contract's `yield_hook` states what
+        the body may assume (obligations), what it may change (havoc + rely) and that it may raise anything."""
+        h = getattr(self.x.c, "yield_hook", None)
+        if h is None:
+            raise EngineError("yield without a yield_hook in the contract")
+        return h(self, fr)
 
     def ex_JoinedStr(self, node, fr):
         parts = []
